@@ -105,6 +105,30 @@ IsHullOf(kind, h, P) ==
                  LET n == Len(h) - 1 IN Cross(h[i], h[(i % n) + 1], h[((i + 1) % n) + 1]) # 0
             /\ \A i \in Edges(h) : \A k \in Edges(h) : (i # k => ~SameXY(h[i], h[k]))
 
+\* ------------------------------------------------------------------ components the hull is built from (C13 anchors):
+\* transform.UniqueCoords / TreeSet and sorting.FlatCoord, as a set / order specification
+\* @type: (Seq(Int), Seq(Int)) => Bool;
+Less2D(a, b) == a[1] < b[1] \/ (a[1] = b[1] /\ a[2] < b[2])
+\* out keeps, in input order, exactly the first occurrence of every XY position, with all its ordinates
+\* @type: (Seq(Seq(Int)), Seq(Seq(Int))) => Bool;
+IsUniqueOf(out, P) ==
+  LET firsts == {i \in DOMAIN P : \A j \in DOMAIN P : j < i => ~SameXY(P[j], P[i])} IN
+  /\ Len(out) = Cardinality(firsts)
+  /\ \A k \in DOMAIN out : \E i \in firsts : out[k] = P[i] /\ Cardinality({j \in firsts : j <= i}) = k
+\* out is the set of first occurrences in strictly increasing (x, y) order
+\* @type: (Seq(Seq(Int)), Seq(Seq(Int))) => Bool;
+IsSortedSetOf(out, P) ==
+  LET firsts == {i \in DOMAIN P : \A j \in DOMAIN P : j < i => ~SameXY(P[j], P[i])} IN
+  /\ Len(out) = Cardinality(firsts)
+  /\ \A k \in DOMAIN out : \E i \in firsts : out[k] = P[i]
+  /\ \A k \in DOMAIN out : k < Len(out) => Less2D(out[k], out[k+1])
+\* out is a permutation of P (as a multiset of whole coordinates) in non-decreasing (x, y) order
+\* @type: (Seq(Seq(Int)), Seq(Seq(Int))) => Bool;
+IsSortOf(out, P) ==
+  /\ Len(out) = Len(P)
+  /\ \A i \in DOMAIN P : Cardinality({k \in DOMAIN out : out[k] = P[i]}) = Cardinality({j \in DOMAIN P : P[j] = P[i]})
+  /\ \A k \in DOMAIN out : k < Len(out) => ~Less2D(out[k+1], out[k])
+
 \* ------------------------------------------------------------------ C15: squared distances as rationals <<num, den>>, den > 0
 \* @type: (Seq(Int), Seq(Int)) => Int;
 Dot2(u, v) == u[1] * v[1] + u[2] * v[2]
